@@ -27,6 +27,8 @@ pub const ON: usize = 2;
 pub static mut OV_N: usize = 0;
 pub static mut OV_K: [u8; ON] = [0; ON];
 pub static mut OV_LIVE: [bool; ON] = [false; ON];
+pub static mut OV_KRC: [Option<RcValue>; ON] = [None, None];
+pub static mut OV_VRC: [Option<RcValue>; ON] = [None, None];
 
 pub fn stub_state_seek<Q: LogQuery>(st: &mut BTreeIterState, seek_to: SeekTo, _btree: &mut BTree, _col: &BTreeTable, _log: &Q) -> Result<()> {
 	unsafe {
@@ -88,9 +90,8 @@ fn ov_pick(lk: &LastKey, forward: bool) -> Option<(RcValue, Option<RcValue>)> {
 			j += 1;
 		}
 		if best == ON { return None }
-		let mut k = Vec::with_capacity(1); k.push(OV_K[best]);
-		let v = if OV_LIVE[best] { let mut v = Vec::with_capacity(1); v.push(OV_K[best].wrapping_add(100)); Some(RcValue::from(v)) } else { None };
-		Some((RcValue::from(k), v))
+		let v = if OV_LIVE[best] { OV_VRC[best].clone() } else { None };
+		Some((OV_KRC[best].clone().unwrap(), v))
 	}
 }
 pub fn stub_ov_next(_o: &CommitOverlay, lk: &LastKey) -> Option<(RcValue, Option<RcValue>)> { ov_pick(lk, true) }
@@ -137,6 +138,9 @@ fn setup(nb: usize, no: usize) {
 		let mut j = 1;
 		while j < BN { if j < nb { kani::assume(BK[j - 1] < BK[j]); } j += 1; }
 		if no == 2 { kani::assume(OV_K[0] != OV_K[1]); }
+		crate::db::verif_kani::rc_reset();
+		let mut j = 0;
+		while j < ON { if j < no { OV_KRC[j] = Some(crate::db::verif_kani::rc_byte(OV_K[j])); OV_VRC[j] = Some(crate::db::verif_kani::rc_byte(OV_K[j].wrapping_add(100))); } j += 1; }
 		CUR_KIND = 0; CUR_I = 0; SEEKS = 0; OPENS = 0;
 	}
 }
@@ -196,6 +200,7 @@ macro_rules! c04_m {
 			#[kani::stub(crate::btree::btree::BTree::open, stub_open)]
 			#[kani::stub(crate::db::CommitOverlay::btree_next, stub_ov_next)]
 			#[kani::stub(crate::db::CommitOverlay::btree_prev, stub_ov_prev)]
+			#[kani::stub(crate::db::RcValue::value, crate::db::verif_kani::stub_rc_value)]
 			fn $name() { merge_case($nb, $no, $ops, $n, $bump) }
 		}
 	};
